@@ -513,11 +513,18 @@ Proof.
 Qed.
 
 Corollary runs_invisible_current acts s :
-  no_registering_act acts = true ->
   veq (exec_acts current s acts) (exec_acts current s (filter is_user acts)).
-Proof. intros G. apply runs_invisible; try reflexivity; [right; exact G|]. unfold veq. auto. Qed.
+Proof. apply runs_invisible; try reflexivity; [left; reflexivity|]. unfold veq. auto. Qed.
 
-(* ---- the tree as it is (after the four repairs): everything but the auto-profiling leak --------- *)
+(* ---- the tree as it is (after the five repairs) satisfies all of C19 ---------------------------- *)
+Theorem restores_current : C19_statement current.
+Proof. apply restores_if_fixed; reflexivity. Qed.
+
+Corollary restores_current_run s o p :
+  usable (gp s) = true -> restored s (snd (main current o p s)) = true.
+Proof. intros U. exact (restores_current s [(o, p)] U). Qed.
+
+(* ---- what held before a77d816 (kept: it is a theorem about every cfg with the four repairs) ----- *)
 (* for ALL sequences four clauses hold; the fifth (no profiler left enabled) holds when no run
    executes auto-profiling registration statements (-l -p with a selection matching an import) *)
 Theorem restores_current_partial s rs :
@@ -593,15 +600,10 @@ Proof.
   destruct a, b, c, d, e, f; vm_compute; repeat split; reflexivity.
 Qed.
 
-Lemma current_refuted : ~ C19_statement current.
-Proof.
-  intros H. specialize (H st0 [(opts0, registering)] eq_refl). vm_compute in H. discriminate.
-Qed.
-
 (* ... and the next in-process run then fails: its own profiler cannot be enabled *)
-Lemma leak_breaks_next_run :
-  fst (main current opts0 returns (snd (main current opts0 registering st0))) = Raised
-  /\ fst (main current opts0 returns st0) = Returned.
+Lemma leak_breaks_next_run_unrepaired :
+  fst (main unrepaired opts0 returns (snd (main unrepaired opts0 registering st0))) = Raised
+  /\ fst (main unrepaired opts0 returns st0) = Returned.
 Proof. vm_compute. split; reflexivity. Qed.
 
 (* in particular the tree before the repairs violated C19 *)
